@@ -2166,13 +2166,34 @@ def _bool(v):
             return ("or", [("and", [_bool(c), _bool(a)]), ("and", [("not", _bool(c)), _bool(b)])])
         if nm == "call:bool" and len(args) == 1 and not isinstance(args[0], str):
             return _bool(args[0])
-        if nm == "ge0" and len(args) == 1 and not isinstance(args[0], str) and not args[0].is_const() and F._leading_negative(args[0].n):
+        if nm == "ge0" and len(args) == 1 and not isinstance(args[0], str) and not args[0].is_const() and _negative_lead(args[0]):
             # x < 0 is the negation of x >= 0: one atom for both
             pos = F.fn("ge0", -args[0] - 1)
-            return ("not", ("atom", repr(pos), pos))
+            return ("not", atom(pos))
     if sym_name(v) in ("True", "False"):
         return ("const", sym_name(v) == "True")
-    return ("atom", repr(v), v)
+    return atom(v)
+
+
+def akey(v):
+    """a key for a formula used as a boolean atom: its text, made unique when the text is abbreviated"""
+    t = repr(v)
+    if len(t) < 300:
+        return t
+    import hashlib
+    return t[:120] + "...#" + hashlib.sha1(repr((v.n.key(), v.d.key())).encode()).hexdigest()[:16]
+
+
+def atom(v):
+    return ("atom", akey(v), v)
+
+
+def _negative_lead(r):
+    """sign of the first non-constant term (x and -x - 1 always differ in it)"""
+    ks = [k for k in r.n.t if k != ()]
+    if not ks or not r.d.is_const():
+        return False
+    return (r.n.t[min(ks)] / r.d.const_value()) < 0
 
 
 def _truth(v):
